@@ -138,9 +138,14 @@ def _classes_of(tok):
     return str(v).split() if v is not None else []
 
 
-def nonstatic_reasons(root, mode):
-    """Reasons why the token tree is outside the static syntax of the property's quantifier."""
+def nonstatic_reasons(root, mode, kw=None):
+    """Reasons why the token tree is outside the static syntax of the property's quantifier.
+    `kw`: extra configuration of the run; `fence_as_directive` turns the listed languages into directives in myst
+    mode ONLY (in the strict modes such a fence is ordinary static syntax: a literal block, content verbatim);
+    `number_code_blocks` numbers the lines of the listed languages (like the lineno-start attribute)."""
     out = []
+    as_directive = set((kw or {}).get("fence_as_directive") or ())
+    numbered = set((kw or {}).get("number_code_blocks") or ())
     for n in root.walk():
         if n.type == "root":
             continue
@@ -151,6 +156,8 @@ def nonstatic_reasons(root, mode):
             name = _first_word(n.info)
             if name.startswith("{") and name.endswith("}"):
                 out.append("nonstatic:directive-fence")
+            elif name in as_directive:
+                out.append("nonstatic:fence-as-directive")
         elif t == "link" and mode == "myst":
             href = str(n.attrs.get("href") or "")
             m = RE_SCHEME.match(href)
@@ -159,6 +166,8 @@ def nonstatic_reasons(root, mode):
             elif n.info == "auto" and href.startswith("#"):
                 out.append("excluded:autolink-anchor")
         if t in ("fence", "code_block") and ("lineno-start" in n.attrs or "emphasize-lines" in n.attrs):
+            out.append("nonstatic:code-line-attrs")
+        elif t == "fence" and numbered and _first_word(n.info) in numbered:
             out.append("nonstatic:code-line-attrs")
         if t == "blockquote" and "attribution" in n.attrs:
             out.append("nonstatic:attribution")
@@ -788,6 +797,9 @@ def norm_case(case):
          "exts": sorted(case.get("exts", ()) or ()), "backend": case.get("backend", "docutils")}
     if case.get("agree"):
         c["agree"] = True
+    kw = case.get("kw")
+    if isinstance(kw, dict) and kw:          # extra myst_* configuration of the run (round 5: options that affect
+        c["kw"] = {k: (sorted(v) if isinstance(v, (list, tuple, set)) else v) for k, v in kw.items()}   # fences)
     if c["mode"] not in MODES:
         c["mode"] = "myst"
     if c["backend"] not in ("docutils", "sphinx"):
@@ -807,7 +819,8 @@ def run_case(case, info=None):
         info = {}
     text, mode, exts, backend = case["text"], case["mode"], case["exts"], case["backend"]
     fails = []
-    config = make_config(mode, exts)
+    kw = case.get("kw") or {}
+    config = make_config(mode, exts, **kw)
     try:
         root, tokens, _env = token_tree(config, text)
     except Exception as e:               # the parser itself failing is outside C02 but must not be silent
@@ -830,7 +843,7 @@ def run_case(case, info=None):
     info["ntokens"] = ntok
     info["types"] = types
     info["depth"] = depth
-    reasons = nonstatic_reasons(root, mode)
+    reasons = nonstatic_reasons(root, mode, kw)
     if reasons:
         info["excluded"] = sorted(set(reasons))
         return []
@@ -838,7 +851,7 @@ def run_case(case, info=None):
         if backend == "sphinx":
             doc, warn = SphinxDriver.get().parse(text, config)
         else:
-            doc, warn = docutils_parse(text, mode, exts)
+            doc, warn = docutils_parse(text, mode, exts, **kw)
     except Exception as e:
         return [_fail(f"exception:{type(e).__name__}:{_exception_site(e)}", f"{backend} parse raised",
                       observed=(repr(e)[:300] + " | " + "".join(traceback.format_tb(e.__traceback__)[-2:])[-400:]))]
@@ -860,7 +873,7 @@ def run_case(case, info=None):
             if bad:
                 fails.append(_fail("oracle:canon", "; ".join(bad), observed=str(n.attrs.get("href"))))
                 break
-    if case.get("agree"):
+    if case.get("agree") and not kw:
         try:
             r2 = backends_agree(text, mode, exts)
         except Exception as e:
@@ -972,6 +985,48 @@ def gen_case(rng, max_depth):
     return case
 
 
+FENCE_LANGS = ["note", "mermaid", "python", "warning", "tip"]
+FENCE_BODIES = [["This *is* code,", "", "    kept verbatim."], ["x = 1"], ["# not a heading", "- not a list"],
+                ["  indented", "\ttab", ""], ["[^1]: not a footnote", "{ref}`x`"], [":class: k", "", "body"]]
+
+
+def gen_fence_option_case(rng):
+    """Options that affect fences, combined with every mode: in the strict modes a fence whose language is listed in
+    fence_as_directive is still a literal block with verbatim content and its language."""
+    mode = rng.choice(("commonmark", "commonmark", "gfm", "gfm", "myst"))
+    exts = [e for e in STATIC_EXTS if rng.random() < 0.5] if mode == "myst" else []
+    kw = {"fence_as_directive": sorted(rng.sample(FENCE_LANGS, rng.choice((1, 1, 2, 3))))}
+    if rng.random() < 0.4:
+        kw["number_code_blocks"] = sorted(rng.sample(FENCE_LANGS, rng.choice((1, 2))))
+    if rng.random() < 0.4:
+        kw["highlight_code_blocks"] = rng.random() < 0.5
+    text, _stats, _nest = c02_docgen.gen_doc_stats(rng, rng.randint(2, 4), rng.choice((2, 3, 6)), mode, exts)
+    blocks = [text.rstrip("\n")] if text.strip() else []
+    for _ in range(rng.choice((1, 2, 3))):
+        fence = rng.choice(("```", "~~~", "````"))
+        lang = rng.choice(FENCE_LANGS + ["", "c"]) + rng.choice(("", "", " extra words"))
+        b = [fence + lang] + list(rng.choice(FENCE_BODIES)) + [fence]
+        w = rng.randrange(5)
+        if w == 0:
+            b = [("> " + l) if l else ">" for l in b]
+        elif w == 1:
+            b = [("- " if i == 0 else ("  " if l else "")) + l for i, l in enumerate(b)]
+        elif w == 2:
+            b = [("1. " if i == 0 else ("   " if l else "")) + l for i, l in enumerate(b)]
+        blocks.insert(rng.randrange(len(blocks) + 1), "\n".join(b))
+    return {"text": "\n\n".join(blocks) + "\n", "mode": mode, "exts": sorted(exts),
+            "backend": "sphinx" if rng.random() < 0.3 else "docutils", "kw": kw}
+
+
+FENCE_OPTION_WITNESSES = [
+    {"text": "```note\nThis *is* code,\n\n    kept verbatim.\n```\n\n- item\n\n  ```note\n  nested code\n  ```\n\n"
+             "```python\nx = 1\n```\n", "mode": m, "exts": [], "backend": b, "kw": kw}
+    for m in ("commonmark", "gfm", "myst") for b in ("docutils", "sphinx")
+    for kw in ({"fence_as_directive": ["note"]}, {"fence_as_directive": ["mermaid", "note"], "highlight_code_blocks": False},
+               {"fence_as_directive": ["note"], "number_code_blocks": ["python"]})
+]
+
+
 def corpus_cases():
     """SEED_DOCS + CommonMark spec inputs: all three modes on docutils, a third of them on sphinx as well."""
     docs = list(c02_docgen.SEED_DOCS) + c02_docgen.commonmark_spec_inputs()
@@ -1011,6 +1066,13 @@ def search(ctx, n_generated=None):
         if i < 200 and i % 20 == 0:
             ctx.sample({"mode": case["mode"], "backend": case["backend"], "exts": case["exts"],
                         "text": case["text"][:400]})
+    # 5. options that affect fences x modes (own share of the budget, drawn after the main loop)
+    for case in FENCE_OPTION_WITNESSES:
+        ctx.count("source:fence-options:fixed")
+        rec.run(case)
+    for i in range(ctx.budget(60, 800, 800)):
+        ctx.count("source:fence-options:generated")
+        rec.run(gen_fence_option_case(ctx.rng))
     if rec.generated:
         ctx.count("generated:avg-tokens", 0)
         ctx.counts["generated:avg-tokens"] = round(rec.tok_sum / rec.generated, 1)
